@@ -275,6 +275,13 @@ def r19_filter(cut):
     return n
 
 
+def r27_is_some_and(cut):
+    """R27 (generic): `E.as_ref().is_some_and(F)` for a path E and a named function / closure F -> `(match &E { Some(__v) => F(__v), None => false })`
+    (definition of Option::is_some_and); apply before R24 so that a local closure F is then inlined."""
+    return cut.sub(r"\b((?:self\.)?\w+(?:\.\w+)*)\.as_ref\(\)\.is_some_and\((\w+)\)", r"(match &\1 { Some(__v) => \2(__v), None => false })",
+                   "R27 Option::as_ref().is_some_and(f) -> match", expect=(0, 12))
+
+
 def r24_inline_closures(cut):
     """R24 (generic): a local closure `let NAME = |p1[: T1], ...| BODY;` that captures nothing mutably is removed and every call `NAME(a1, ...)` is replaced by
     `({ let p1 = a1; ...; BODY })` (definition of calling a closure).  Only closures bound with `let` to a plain identifier and called by that identifier are handled."""
@@ -327,6 +334,19 @@ pub open spec fn has_prefix(s: Seq<char>, p: Seq<char>) -> bool { s.len() >= p.l
 #[verifier::external_body] pub fn string_starts_with(s: &String, p: &str) -> (r: bool) ensures r == has_prefix(s@, p@) { s.starts_with(p) }
 #[verifier::external_body] pub fn string_clone(s: &String) -> (r: String) ensures r@ == s@ { s.clone() }
 """
+
+STR_CONTAINS_SHIM = """
+// R15 (generic): s.contains("literal") / s.contains('c') on a String / &str: a function of the two texts
+pub uninterp spec fn has_infix(s: Seq<char>, p: Seq<char>) -> bool;
+#[verifier::external_body] pub fn string_contains(s: &str, p: &str) -> (r: bool) ensures r == has_infix(s@, p@) { s.contains(p) }
+#[verifier::external_body] pub fn string_contains_char(s: &str, c: char) -> (r: bool) ensures r == s@.contains(c) { s.contains(c) }
+"""
+
+
+def r15_contains_lit(cut):
+    n = cut.sub(r"\b(\w+(?:\.\w+)*)\.contains\((\"[^\"]*\")\)", r"string_contains(&*\1, \2)", "R15 contains(\"lit\") -> shim", expect=(0, 20))
+    n += cut.sub(r"\b(\w+(?:\.\w+)*)\.contains\(('(?:\\.|[^'\\])')\)", r"string_contains_char(&*\1, \2)", "R15 contains('c') -> shim", expect=(0, 20))
+    return n
 
 
 def r15_starts_with_lit(cut):
